@@ -13,7 +13,7 @@ PROPS = {
     "C09": {
         "case_sets": ["lex"],
         "ops": ["SCAN", "RESCAN", "NUM"],
-        "lean_targets": ["PqlModel.Props.C09"],
+        "lean_targets": ["PqlModel.Props.C09", "PqlModel.Props.C09b"],
         "facts": ["keywords", "isAlphaRanges", "isDigitRanges", "isHexDigitRanges", "tokenKinds"],
         "rule": "SCAN: every string over the 25-symbol scanner alphabet up to length 3 (quick) / 4 (thorough), "
                 "plus random concatenations of lexeme fragments and raw bytes; non-trivial = distinct source "
